@@ -23,6 +23,14 @@ def gen_examples(rng, exotic=None):
                            # literal text shaped like a quantifier / group / class / alternation
                            'x{3}', 'v{1,2}', 'w{1,2}', '{7}', 'ab{2}', 'cd{2}', 'id-{10}-a', 'x{y}', 'a{', '}', 'a*', 'b+', 'c?', '(a)',
                            '[ab]', 'a|b', 'x{,2}', 'q{2,}']) for _ in range(rng.randint(1, 3))]
+    if rng.random() < 0.06:
+        # groups in which every example has a non-ASCII decimal digit at the digit positions (no ASCII digit to lean on)
+        ex = (list(ex) if rng.random() < 0.4 else []) + rng.choice([
+            ['\u0661\u0662', '\u0663\u0664'], ['a\u0663', 'b\u0664', 'c\u0665'], ['\u0663', '\u0664', '\uff15'],
+            ['x-\u0661\u0662', 'y-\u0663\u0664'], ['\u0967\u0968\u0969', '\u096a\u096b\u096c'], ['AB\u0661', 'CD\u0662', 'EF3']])
+    if rng.random() < 0.08:
+        # examples that are nothing but white space (what strip and remove_empties are about)
+        ex = list(ex) + [rng.choice(['   ', '\t', ' ', '  ', ' \t ', '\n']) for _ in range(rng.randint(1, 3))]
     if rng.random() < 0.04:
         # nothing left to extract from: no examples, or only values the options remove
         ex = rng.choice([[], [None], [None, None], ['', ' ', '  '], ['']])
@@ -56,7 +64,7 @@ def gen_opts(rng):
         o['tag'] = True
     if rng.random() < 0.25:
         o['strip'] = True
-    if rng.random() < 0.25:
+    if rng.random() < (0.5 if o.get('strip') else 0.2):
         o['remove_empties'] = True
     if rng.random() < 0.3:
         o['variableLengthFrags'] = True
